@@ -25,6 +25,22 @@ def cases(ctx):
         while len(runs) < n:
             runs += [G.valid_pattern(dt, 1)] * rng.range(1, 12) + [G.random_pattern(rng, dt)]
         out.append({"dt": dt, "level": 8, "order": 0, "gcds": 1, "chunks": [runs[:n]], "kinds": ["short-runs"], "drain": 0})
+    # spikes with two-sided outliers at the levels that give exactly two quantiles: the run-length range then holds
+    # the dominant value and the outliers below it (its frequent value is not its lower bound)
+    for dt in (S.ALL_DT if not ctx.quick else [rng.choice([d for d in S.ALL_DT if d != "bool"]) for _ in range(6)]):
+        if dt == "bool":
+            continue
+        for (n, level) in ((20000, 1), (5000, 2), (3000, 3), (1001, 4)):
+            if ctx.quick and rng.chance(1, 2):
+                continue
+            center = G.key(dt, G.random_pattern(rng, dt)) // 2
+            b = rng.range(1, max(1, n // 40))
+            xs = [G.from_signed_val(dt, center)] * (n - 2 * b - rng.below(3))
+            lows = [G.from_signed_val(dt, center - 1 - rng.below(1 << rng.range(1, 30))) for _ in range(b)]
+            highs = [G.from_signed_val(dt, center + 1 + rng.below(1 << rng.range(1, 30))) for _ in range(n - len(xs) - b)]
+            for v in lows + highs:
+                xs.insert(rng.below(len(xs) + 1), v)
+            out.append({"dt": dt, "level": level, "order": 0, "gcds": rng.below(2), "chunks": [xs], "kinds": ["two-sided-spike"], "drain": 0})
     for _ in range(800 if ctx.quick else 8000):
         out.append(S.enc_case(rng))
     return out
@@ -52,9 +68,11 @@ def run(ctx):
             ctx.count("kind:" + k)
         if r["bytes"] is None or r["model"] is None or not r["model"].startswith("ok "):
             continue
-        if r["head"].get("reenc") != "1":
+        tied = r["head"].get("reenc") == "1"
+        if not tied:
+            # the model's greedy re-encoding differs from the writer's bytes: the exact bit counts are not tied, so the
+            # bounds are judged on the REAL sizes (body byte size from the file, which includes <= 7 padding bits)
             ctx.disagree("enc", line, r["model"][:300], "bytes", "spec re-encoding differs: exact sizes not tied")
-            continue
         P, W, kind, pps = C.DTYPES[c["dt"]]
         Wp = 1 if kind == "bool" else W
         total = len(r["bytes"]) // 2
@@ -63,6 +81,8 @@ def run(ctx):
         only_bool_moments = True
         for i, ch in enumerate(r["chunks"]):
             nus, bodybits, bodybytes = int(ch["nus"]), int(ch["bodybits"]), int(ch["bodybytes"])
+            if not tied:
+                bodybits = max(0, bodybytes * 8 - 7)
             metabits, prefbits, nprefs = int(ch["metabits"]), int(ch["prefbits"]), int(ch["nprefs"])
             chunk_bytes += metabits // 8 + bodybytes
             if nus:
